@@ -1143,6 +1143,12 @@ def identity(x: T) -> T:
     return x
 
 
+def _signed_flags(flags: Flag) -> int:
+    """Contents/surface flags are stored in signed 32-bit fields, so bit 31 has to become the sign."""
+    value: int = flags.value
+    return value - (1 << 32) if value & (1 << 31) else value
+
+
 def runlength_decode(
     data: Union[bytes, bytearray],
     start: int = 0, max_clusters: int = -1,
@@ -2245,7 +2251,7 @@ class BSP:
             brush_buf.write(struct.pack(
                 '<iii',
                 add_sides(brush.sides), len(brush.sides),
-                brush.contents.value,
+                _signed_flags(brush.contents),
             ))
 
         side_struct = self.lump_layout['BRUSHSIDE']
@@ -2440,7 +2446,7 @@ class BSP:
 
             if is_vitamin:
                 buf.write(self.lump_layout['LEAF'].pack(
-                    leaf.contents.value, leaf.cluster_id, leaf.area,
+                    _signed_flags(leaf.contents), leaf.cluster_id, leaf.area,
                     *self._pack_bbox(leaf.mins, leaf.maxes),
                     face_ind, len(leaf.faces),
                     brush_ind, len(leaf.brushes),
@@ -2448,7 +2454,7 @@ class BSP:
                 ))
             else:
                 leafdata: tuple[Union[int, float, bytes], ...] = (
-                    leaf.contents.value, leaf.cluster_id,
+                    _signed_flags(leaf.contents), leaf.cluster_id,
                     (leaf.area << self.lump_layout['LEAF_AREA_OFFSET'] | leaf.flags.value),
                     *self._pack_bbox(leaf.mins, leaf.maxes),
                     face_ind, len(leaf.faces),
@@ -2618,7 +2624,7 @@ class BSP:
                 *info.t_off, info.t_shift,
                 *info.lightmap_s_off, info.lightmap_s_shift,
                 *info.lightmap_t_off, info.lightmap_t_shift,
-                info.flags.value,
+                _signed_flags(info.flags),
                 ind,
             ))
         self.lumps[BSP_LUMPS.TEXDATA].data = b''.join(texdata_list)
